@@ -56,6 +56,7 @@ type L0 []int
 const (
 	tyL0    = 21
 	tyLU    = 22
+	tyPI0   = 23 // *I0: a pointer to an interface — a concrete type of its own
 	tyI0    = 10
 	tyI1    = 11
 	tyI2    = 12
@@ -78,6 +79,7 @@ var poolTypes = map[int]reflect.Type{
 	tyError: errType,
 	tyL0:    reflect.TypeOf(L0{}),
 	tyLU:    reflect.TypeOf([]int{}),
+	tyPI0:   reflect.TypeOf((*I0)(nil)),
 }
 
 var (
@@ -108,6 +110,8 @@ func init() {
 			want = "main.L0"
 		case id == tyLU:
 			want = "[]int"
+		case id == tyPI0:
+			want = "*main.I0"
 		}
 		if t.String() != want {
 			panic(fmt.Sprintf("type %d prints as %s, the driver expects %s", id, t.String(), want))
@@ -170,6 +174,9 @@ func mkValue(id, vid, dyn int) reflect.Value {
 		return reflect.ValueOf(L0{vid})
 	case id == tyLU:
 		return reflect.ValueOf([]int{vid})
+	case id == tyPI0:
+		var i I0 = K4{ID: vid}
+		return reflect.ValueOf(&i)
 	case t.Kind() == reflect.Interface:
 		impl := implementers(id)
 		if len(impl) == 0 {
